@@ -512,7 +512,12 @@ class dir_archive(archive):
         try: ispickle = key.startswith(PROTO) and key.endswith(STOP)
         except: ispickle = False #FIXME: protocol 0,1 don't startwith(PROTO)
         key = hash(key, 'md5') if ispickle else str(key) #XXX: always hash?
-        return key.replace('-','_')
+        key = key.replace('-','_')
+        # a name the filesystem cannot hold was never stored (and no error
+        # raised): use a digest; the key itself is then kept in the input file
+        if len((PREFIX+key).encode('utf-8','surrogateescape')) > 255:
+            key = hash(key, 'md5')
+        return key
        ##XXX: below probably fails on windows, and could be huge... use 'md5'
        #return repr(key)[1:-1] if ispickle else str(key) # or repr?
 
